@@ -29,6 +29,8 @@ def run(prog, chk):
     axis_lines(prog, chk)
     wiring(prog, chk)
     location_choice(prog, chk)
+    from props import geomalg
+    geomalg.check(prog, chk, "C13", floor=30)
 
 
 def _lit(body, t, i):
